@@ -20,6 +20,7 @@ from .exceptions import (
     MissingParameters,
     NoSuchParameter,
     MPilotError,
+    ProgramError,
 )
 from .params import ResultParameter, ListParameter
 from .parser.parser import Parser, ProgramNode
@@ -137,6 +138,17 @@ class Program(object):
 
             arguments = OrderedDict()
             for argument_node in node.arguments:
+                if argument_node.name in arguments:
+                    raise ProgramError(
+                        argument_node.lineno,
+                        "\n".join(
+                            (
+                                'Problem: The parameter "{}" is given more than once.'.format(argument_node.name),
+                                "Solution: Give each parameter of a command only once.",
+                            )
+                        ),
+                    )
+
                 if isinstance(argument_node.value.value, list):
                     arguments[argument_node.name] = resolve_list(
                         argument_node.name, argument_node.value
